@@ -12,7 +12,7 @@ MANIFEST = dict(
               "extracted model against ThresholdChecker (library level) and against the real CLI pair check/explain",
     text="Theorems C05_trichotomy_{failed,warning,passed}, C05_check_is_verdict_of_effective_count, C05_effective_count, C05_ignored_never_counted, C05_monotone_count, "
          "C05_monotone_limit_absolute, C05_monotone_limit_failed, C05_warn_point_is_spec_of_limit, C05_last_match_wins, C05_no_rule_iff_no_match, C05_rules_in_declaration_order, "
-         "C05_precedence_{warn,limit,skip}, C05_validated_warn_at_below_limit, C05_explain_reports_what_check_uses, C05_explain_coherent, C05_explain_excluded_{iff,not_checked}, "
+         "C05_precedence_{warn,limit,skip}, C05_validated_warn_at_below_limit, C05_validated_thresholds_in_unit, C05_in_unit_excludes_nan, C05_check_command_{evaluates_only_valid,config_error_iff,overrides_validated}, C05_check_checker_is_new_of_overridden, C05_commands_agree_on_validity, C05_explain_reports_what_check_uses, C05_explain_coherent, C05_explain_excluded_{iff,not_checked}, "
          "C05_explain_command_uses_check_checker, C05_cli_overrides_{globals_only,rule_wins,apply_without_rule} (closed under the global context) and C05_pct_point_monotone_in_limit, "
          "C05_monotone_limit_percentage, C05_monotone_limit (through Flocq) hold for every rule list, match vector, global setting, override, threshold bit pattern and count (unbounded). "
          "The tie is a seeded, boundary-directed differential run plus a small-scope sweep (exhaustive in the thorough tier) and the property oracle evaluated on the implementation itself, "
@@ -287,7 +287,7 @@ def sb_run(sb, exe, args, **kw):
 
 def run_cli_pairs(ctx, cli_exe, impl, model, defaults, nproj, tally):
     rng = ctx.rng
-    st = {"projects": 0, "spawns": 0, "files_compared": 0, "explains_compared": 0, "override_runs": 0, "no_language_files_skipped_by_check": 0,
+    st = {"projects": 0, "spawns": 0, "files_compared": 0, "explains_compared": 0, "override_runs": 0, "override_config_errors": 0, "no_language_files_skipped_by_check": 0,
           "no_language_witness": None,
           "no_language_note": "observation only (D24 shape): a file brought into scope by a rule or an empty extension filter but without a recognised language is skipped by "
                               "process_file_with_cache before any count exists; C05 quantifies over counts, so such files are outside its domain. explain answers, for them too, with the "
@@ -311,7 +311,7 @@ def run_cli_pairs(ctx, cli_exe, impl, model, defaults, nproj, tally):
                 cfg.sb = defaults["skip_blank"] == "1"
         paths = rng.sample(CLI_PATHS, rng.randint(3, 6))
         cli = rand_opt(rng, lambda: Cli(rand_opt(rng, lambda: rng.randint(1, 30), 0.6), rng.random() < 0.4, rng.random() < 0.4,
-                                        rand_opt(rng, lambda: bits(rng.choice(SPECIAL_T + [round(rng.random(), 2)])), 0.6)), 0.4)
+                                        rand_opt(rng, lambda: bits(rng.choice(SPECIAL_T + [round(rng.random(), 2), round(rng.random(), 2), 1.5, 7.0, -0.25, float("nan")])), 0.6)), 0.4)
         # match vectors from the harness, boundary-directed file sizes from the spec
         pr, _ = probe(impl, [(cfg, p, None, None, "cli") for p in paths] + [(cfg, ".sloc-guard.toml", None, None, "cli")])
         with Sandbox() as sb:
@@ -337,6 +337,24 @@ def run_cli_pairs(ctx, cli_exe, impl, model, defaults, nproj, tally):
                 st["spawns"] += 1
                 if ov:
                     st["override_runs"] += 1
+                # check validates the overridden configuration: model and spec say whether this run is a configuration error
+                c0 = pr[0][0]
+                vc = Case(cfg, c0.path, (0, 0, 0, 0, 0), cli=ov, tag="cli-validity")
+                vc.mv, vc.ev, vc.ext = c0.mv, c0.ev, c0.ext
+                vm, _, _ = run_lines(model, [vc.wire_model()])
+                model_valid = parse_fields(vm[0]).get("VALO") == "1" if vm else None
+                spec_valid = config_valid(cfg, ov)
+                tally.evals += 1
+                tally.bump("tag:cli-validity")
+                if model_valid != spec_valid:
+                    raise CheckBroken("model and spec disagree on validity of %s with %s" % (cfg.wire(), ov.args() if ov else None))
+                if not spec_valid:
+                    st["override_config_errors"] += 1
+                    tally.nontrivial.add("cli-invalid\t" + vc.wire_model())
+                    if rc != 2 or out.strip().startswith("{"):
+                        tally.mism.append((vc, "exit %d, stdout %r" % (rc, out[:200]), vm[0] if vm else "", "VALO(check exits 2 on an override that breaks validation)"))
+                        tally.fails.append((vc, "exit %d %s" % (rc, (out + err)[:300]), ["check ran with overrides %s that break a validated constraint (exit %d, expected the configuration error exit 2)" % (ov.args(), rc)]))
+                    continue
                 try:
                     j = json.loads(out)
                 except Exception:
@@ -576,7 +594,8 @@ def run(ctx):
         "std Path::extension, toml and clap/std float parsing (decimal -> binary64) are not modelled",
         "Coq.Floats.SpecFloat as the definition of IEEE 754 binary64 multiplication and of usize -> f64 rounding (tied to the hardware by the differential run)",
         "Flocq (Bmult_correct, round_le) and the classical real-number axioms it inherits, for C05_monotone_limit_percentage only",
-        "absence of panics of the Rust code is observed by the harness (catch_unwind), not proved; usize additions in compute_effective_stats are assumed not to overflow"]
+        "absence of panics of the Rust code is observed by the harness (catch_unwind), not proved; usize additions in compute_effective_stats are assumed not to overflow",
+        "validation of rule `expires` dates (part of validate_content_section since D19) is not modelled: generated rules carry no expires field"]
     ctx.assumptions = ["GlobSet::matches returns the ascending indices of exactly the patterns that match individually (tied by the differential run: the match vector is computed per pattern)",
                        "a file that check evaluates has line stats; files without a recognised language have no count and lie outside C05 (D24 is recorded under C01's scope question)",
                        "counts fit in usize without overflow (code + comment + blank < 2^64)"]
